@@ -3,7 +3,7 @@
 From Coq Require Import List NArith Bool Lia String.
 From Breadlog Require Import Model.Peg Model.Text Model.Regex Model.Glue Model.Tables.
 From Breadlog Require Import Gen.Grammar Gen.Consts.
-From Breadlog Require Import Proofs.PegFacts Proofs.RuleLemmas Proofs.GlueSpec.
+From Breadlog Require Import Proofs.PegFacts Proofs.RuleLemmas Proofs.GlueSpec Proofs.StatementLemmas.
 From Breadlog Require Import Properties.Common.
 Import ListNotations.
 Open Scope N_scope.
@@ -49,8 +49,57 @@ Theorem C10_message_entry : forall cfg code s e ns ne nk as_ ae target kvs ks ke
   end.
 Proof. exact (one_macro_message_canon the_params). Qed.
 
-(* NOT proved: that the grammar produces a tree of this canonical shape for every canonical statement
-   text (the full parser specification theorem); that link is the correspondence + oracle campaign. *)
+(* (4) FROM TEXT TO ENTRY, end to end through the generated grammar, for the first statement of a file:
+   ANY layout (whitespace and comments of both kinds, in any order and number), a configured name
+   (any XID_START-or-underscore character followed by any XID_CONTINUE characters), "!(" , ANY layout
+   again, and a string literal whose value is ANY sequence of plain characters and backslash escapes --
+   followed by ANYTHING at all (rst is unconstrained: arguments, unbalanced brackets, other statements,
+   end of file).  Message style, no ignore directive: the finder's first entry is at the first
+   character of the literal's value, at the line and column of that character, carries the reference
+   the literal's own text holds, and is a usable string entry.  This is the text-level counterpart of
+   (1)-(3): no hypothesis mentions a parse tree. *)
+Theorem C10_first_statement_found : forall cfg ws0 gs0 c0 cs ws1 gs1 us rst,
+  let nm := c0 :: cs in
+  let lay := (ws1 ++ render_groups gs1)%list in
+  let msg := render_msg us in
+  let stmt_tail := (nm ++ 33 :: 40 :: lay ++ 34 :: msg ++ 34 :: rst)%list in
+  let before_name := (ws0 ++ render_groups gs0)%list in
+  let code := (before_name ++ stmt_tail)%list in
+  let before_msg := (before_name ++ nm ++ 33 :: 40 :: lay ++ [34])%list in
+  forallb is_ws_char ws0 = true -> groups_ok gs0 stmt_tail ->
+  name_start_ok c0 = true -> forallb (Utab XidContinue) cs = true ->
+  forallb is_ws_char ws1 = true -> groups_ok gs1 (34 :: msg ++ 34 :: rst)%list ->
+  forallb munit_ok us = true ->
+  cfg_structured cfg = false -> macro_of_interest nm cfg = true ->
+  directive_check the_params (p_ignore the_params) code (blen before_name) (p_comment_re the_params) = Some false ->
+  exists es',
+    find cfg code =
+    Done (mkEntry (blen before_msg) (fst (line_col_go before_msg 1 1)) (snd (line_col_go before_msg 1 1))
+                  (extract_reference the_params msg) (short_name nm) KString None None :: es').
+Proof. exact first_statement_found. Qed.
+
+(* its hypotheses are satisfiable: newline, block comment, the name info, a line comment inside the
+   parentheses, a literal with an escaped quote, then further arguments *)
+Example C10_first_statement_nonvacuous :
+  let ws0 := [10] in let gs0 := [(CBlock [32;99;32], [32])] in
+  let c0 := 105 in let cs := [110;102;111] in
+  let ws1 := [32] in let gs1 := [(CLine [32;100], [10;32])] in
+  let us := [MChar 97; MEsc 34; MChar 98] in let rst := [32;44;32;120] in
+  let cfg := mkConfig false [([108;111;103], [105;110;102;111])] in
+  let nm := c0 :: cs in
+  let msg := render_msg us in
+  let stmt_tail := (nm ++ 33 :: 40 :: (ws1 ++ render_groups gs1) ++ 34 :: msg ++ 34 :: rst)%list in
+  let code := ((ws0 ++ render_groups gs0) ++ stmt_tail)%list in
+  forallb is_ws_char ws0 = true /\ groups_ok gs0 stmt_tail /\
+  name_start_ok c0 = true /\ forallb (Utab XidContinue) cs = true /\
+  forallb is_ws_char ws1 = true /\ groups_ok gs1 (34 :: msg ++ 34 :: rst)%list /\
+  forallb munit_ok us = true /\ macro_of_interest nm cfg = true /\
+  directive_check the_params (p_ignore the_params) code (blen (ws0 ++ render_groups gs0)%list) (p_comment_re the_params) = Some false.
+Proof. vm_compute. repeat split; reflexivity. Qed.
+
+(* NOT proved: the same text-level statement for a statement that is not the first of its file, and
+   for statements with a target or key-values (for those, (3) takes over from the parse tree on);
+   that link is the correspondence + oracle campaign. *)
 
 (* non-vacuity: a statement with target, key-values, odd layout and a comment between arguments,
    preceded by "return": found, reference at the first character of the message *)
@@ -64,3 +113,4 @@ Proof. eexists. vm_compute. repeat split; reflexivity. Qed.
 Print Assumptions C10_layout_is_skipped.
 Print Assumptions C10_configured_names.
 Print Assumptions C10_message_entry.
+Print Assumptions C10_first_statement_found.
